@@ -47,6 +47,17 @@ package model
 
 //@ func NewConfiguration
 //@   ensures result != nil && fresh(result) && result.Padding != nil
+//@   ensures [C08:default-array-prefix] !haskey(options, ArrayPrefixLenType) ==> result.ListLenPrefixLenType == "u16"
+//@   ensures [C08:default-string-prefix] !haskey(options, StringPrefixLenType) ==> result.StringLenPrefixLenType == "u16"
+//@   ensures [C08:default-byte-order] !haskey(options, LittleEndian) ==> result.LittleEndian == false
+//@   ensures [C08:default-padding] !haskey(options, FixedStringPadFromLeft) && !haskey(options, FixedStringPadChar) ==> result.Padding.PadChar == "' '" && result.Padding.PadLeft == false
+//@   ensures [C08:default-pad-char] !haskey(options, FixedStringPadChar) ==> result.Padding.PadChar == "' '"
+//@   ensures [C08:default-pad-side] !haskey(options, FixedStringPadFromLeft) ==> result.Padding.PadLeft == false
+//@   ensures [C08:given-array-prefix] haskey(options, ArrayPrefixLenType) ==> result.ListLenPrefixLenType == options[ArrayPrefixLenType]
+//@   ensures [C08:given-string-prefix] haskey(options, StringPrefixLenType) ==> result.StringLenPrefixLenType == options[StringPrefixLenType]
+//@   ensures [C08:given-pad-char] haskey(options, FixedStringPadChar) ==> result.Padding.PadChar == options[FixedStringPadChar]
+//@   ensures [C08:given-packages] (haskey(options, JavaPackage) ==> result.JavaPackage == options[JavaPackage]) && (haskey(options, GoPackage) ==> result.GoPackage == options[GoPackage]) && (haskey(options, GoModule) ==> result.GoModule == options[GoModule])
+//@   ensures [C08:default-packages] (!haskey(options, JavaPackage) ==> result.JavaPackage == "") && (!haskey(options, GoPackage) ==> result.GoPackage == "") && (!haskey(options, GoModule) ==> result.GoModule == "")
 
 // ---------------------------------------------------------------- model well-formedness (WF)
 // Type invariants of a finished model, assumed by the generators (phase B) for every object that
